@@ -81,7 +81,8 @@ Definition ncase_ok (ls : list layer) (r : fres) (impl : list Z) : bool * bool :
 (* ---- metadata stream ------------------------------------------------------------------- *)
 Definition kind_eqb (a b : fkind) : bool :=
   match a, b with
-  | FPlain, FPlain | FGenerator, FGenerator | FCoroutine, FCoroutine | FAsyncGenerator, FAsyncGenerator => true
+  | FPlain, FPlain | FGenerator, FGenerator | FCoroutine, FCoroutine | FAsyncGenerator, FAsyncGenerator
+  | FGenCoroutine, FGenCoroutine => true
   | _, _ => false
   end.
 Definition optstr_eqb (a b : option string) : bool :=
@@ -96,6 +97,15 @@ Definition fmeta_eqb (a b : fmeta) : bool :=
 (* orig: the decorated function's metadata; impl: the metadata of what the profiler returned *)
 Definition mcase_ok (orig impl : fmeta) : bool * bool :=
   (fmeta_eqb (wrap_meta orig) impl, fmeta_eqb impl orig).
+
+(* ---- kern stream: decorated calls interleaved with ticks of kernprof's interval timer ---------- *)
+(* prof: 0 = LineProfiler (kernprof -l -i), 1 = ContextualProfile (kernprof -b -i); the decorated function
+   returns its argument + 10.  impl: the results of the calls as observed under the real kernprof.main *)
+Definition kern_fn : Z -> fres := fun a => FRet (a + 10).
+Definition kcase_ok (prof : Z) (steps : list pstep) (impl : list Z) : bool * bool :=
+  let tick := if prof =? 0 then dump_line_profiler 5 else dump_cprofile 5 in
+  (zlist_eqb (map enc_fres (fst (run_steps tick (wrap_function 5 (pure kern_fn)) steps mon0))) impl,
+   zlist_eqb (map (fun a => enc_fres (kern_fn a)) (call_args steps)) impl).
 
 (* ---- diagnostic: does the implementation behave like the OTHER wrapper variant? ----------
    Evaluated only when the model named by `repo_forwards` disagrees with the implementation: if
